@@ -151,7 +151,7 @@ func zeroLeaf(t types.Type) Value {
 		if isFloat(t) {
 			return FloatV{}
 		}
-		if u.Kind() == types.UntypedNil {
+		if u.Kind() == types.UntypedNil || u.Kind() == types.Invalid {
 			return nil
 		}
 		panic("zero: unsupported basic " + u.String())
